@@ -196,3 +196,43 @@ func zzC04KnownFam(key string, n int) int {
 	}
 	return -1
 }
+
+// zzC04KnownTailRow: a built-in that accepts a keyword tail ending in a keyword
+// without value (VerifC04KeyTail); variant 0 = dangling unknown keyword,
+// 1 = first documented key with a value followed by the same key alone.
+// fam 0: the call returns a value, fam 1: the call ends in a Go run-time fault.
+type zzC04KnownTailRow struct {
+	key     string
+	variant int
+	fam     int
+}
+
+var zzC04KnownTails = []zzC04KnownTailRow{
+	{"common-lisp:adjoin", 0, 0},
+	{"common-lisp:adjoin", 1, 0},
+	{"common-lisp:make-hash-table", 0, 0},
+	{"common-lisp:make-hash-table", 1, 0},
+	{"common-lisp:nsubst-if", 1, 0},
+	{"common-lisp:pathname-directory", 0, 0},
+	{"common-lisp:pathname-name", 0, 0},
+	{"common-lisp:pathname-type", 0, 0},
+	{"common-lisp:subst-if", 1, 0},
+	{"common-lisp:write", 0, 0},
+	{"common-lisp:write", 1, 0},
+	{"common-lisp:write-to-string", 0, 0},
+	{"common-lisp:write-to-string", 1, 0},
+	{"common-lisp:read-from-string", 1, 1},
+	{"gi:defsystem", 0, 1},
+	{"gi:defsystem", 1, 1},
+	{"gi:parse-float", 1, 1},
+}
+
+// zzC04KnownTail returns the family of a known key-tail defect or -1.
+func zzC04KnownTail(key string, variant int) int {
+	for i := range zzC04KnownTails {
+		if zzC04KnownTails[i].variant == variant && zzC04KnownTails[i].key == key {
+			return zzC04KnownTails[i].fam
+		}
+	}
+	return -1
+}
